@@ -49,7 +49,7 @@ def candidates_a(w):
         yield mod(np_inputs=True)
     if w.get("cond_cols", 0):
         yield mod(cond_cols=0)
-    if w.get("ncols", 1) > 1:
+    if w.get("ncols", 1) != 1:
         yield mod(ncols=1)
     if w["max_epochs"] > 0:
         yield mod(max_epochs=w["max_epochs"] - 1)
